@@ -39,6 +39,9 @@ func (s CacheStatus) ApplyTo(header http.Header) {
 	header.Set(CacheStatusHeader, s.Value)
 	if s.Legacy != "" {
 		header.Set(FromCacheHeader, s.Legacy)
+	} else {
+		// Not from this cache: do not pass on a marker received from upstream.
+		header.Del(FromCacheHeader)
 	}
 }
 
